@@ -30,6 +30,15 @@ const DICT: [&str; 105] = [
 ];
 
 fn valid_program(t: &mut Tape) -> String {
+    let body = valid_program_body(t);
+    if t.bool(10) {
+        // an interpreter line in front of the program
+        return format!("#!/usr/bin/env lua\n{}", body);
+    }
+    body
+}
+
+fn valid_program_body(t: &mut Tape) -> String {
     let mode = t.weighted(&[3, 4, 2]);
     let block = match mode {
         0 => gen_tree(t, &SynOpts::lua51()).0,
@@ -201,6 +210,19 @@ pub fn check_pipeline(source: &str, config: &str) -> Result<(bool, bool), Failur
     }
 }
 
+fn pair_programs() -> Vec<String> {
+    vec![
+        // plain Lua, no final return, semicolons and comments
+        "-- header\nlocal count = 0\nlocal step = 1;\nlocal unused\nfunction increment()\n\tcount = count + step -- add\n\treturn count\nend\ndo end\nlocal t = { a = 1, ['b'] = 2, 3 }\nif DEBUG then print(increment(), t.a, t['b'], math.sqrt(4)) end\nassert(count, 'message')\nprint(increment());\n".to_string(),
+        // ends with a return; methods, string and table calls, loops
+        "local lib = {}\nfunction lib.double(x) return x * 2 end\nfunction lib:twice(x)\n\treturn self.double(self.double(x))\nend\nlocal function helper(...) return select('#', ...) end\nfor i = 1, 3 do\n\tif i == 2 then break end\n\tlib:twice(i)\nend\nwhile false do end\nrepeat local done = true until done\nprint 'text' print { 1, 2 }\ndebug.profilebegin('x') debug.profileend()\nreturn lib\n".to_string(),
+        // a shebang line
+        "#!/usr/bin/env lua\nlocal a = 1\nlocal b = 2\nprint(a + b)\n".to_string(),
+        // Luau constructs
+        "--!strict\ntype Point = { x: number, y: number }\nexport type Id = string | number\nlocal p: Point = { x = 0b11, y = 1_000 }\nlocal n = p.x // 2\nn += 1\nlocal s = `value {n} {p.y}`\nlocal v = if n > 1 then 'big' else 'small'\nfor _, k in { 1, 2 } do\n\tif k == 1 then continue end\n\tprint(k :: number, s, v)\nend\n@native local function f<T>(x: T): T return x end\nconst LIMIT = 10\nreturn f(LIMIT)\n".to_string(),
+    ]
+}
+
 fn nesting_family(kind: usize, depth: usize) -> String {
     let mut s = String::new();
     match kind {
@@ -293,6 +315,28 @@ fn run(ctx: &RunCtx) {
             }
         }
         CaseResult::Pass { nontrivial: Some(hash_str(&text)) }
+    });
+    // (d) every ordered pair of rules (32 x 32), their accepted variants in rotation, three generators,
+    // on a few fixed programs (with and without a final return, with a shebang line, Luau constructs):
+    // interactions between two rules do not depend on luck
+    let programs = pair_programs();
+    let generators = ["\"dense\"", "\"readable\"", "\"retain_lines\""];
+    let nr = cfg::ALL_RULES.len() as u64;
+    ctx.enumerate("rule_pairs", nr * nr * 3 * programs.len() as u64, |i, st| {
+        let p = (i % programs.len() as u64) as usize;
+        let g = ((i / programs.len() as u64) % 3) as usize;
+        let pair = i / (programs.len() as u64 * 3);
+        let (a, b) = (cfg::ALL_RULES[(pair / nr) as usize], cfg::ALL_RULES[(pair % nr) as usize]);
+        let va = cfg::valid_variants(a);
+        let vb = cfg::valid_variants(b);
+        let ra = cfg::with_rule(a, &va[(p + g) % va.len()]);
+        let rb = cfg::with_rule(b, &vb[(p * 3 + g + (pair % 7) as usize) % vb.len()]);
+        let config = format!("{{ rules: [{}, {}], generator: {} }}", ra, rb, generators[g]);
+        st.class("rule_pair_case");
+        match check_pipeline(&programs[p], &config) {
+            Ok((written, _)) => CaseResult::Pass { nontrivial: written.then(|| hash_parts(&[programs[p].as_bytes(), config.as_bytes()])) },
+            Err(f) => CaseResult::Fail(f),
+        }
     });
     ctx.isolate("texts");
     ctx.isolate("pipelines");
